@@ -24,37 +24,52 @@ Firsts == {"authgood", "authbad", "authundecodable", "authstatus", "call", "push
 \* connection of the process (to another peer) authenticates with a valid token of the same length.  The model gives the
 \* neighbour no influence whatsoever: the verdict depends on what THIS client sent.
 GoodFirsts == {"authgood", "authsetidgood", "authgoodbytes"}
-Cfgs == [first : Firsts, pipe : {"none", "call", "push", "callpush"}, timing : {"atonce", "stepwise"},
+\* timing = "split": the client delivers its first frame in two pieces and pauses after the first one (watching for any
+\* response); cut says where the frame is cut: inside the 4-byte size prefix, inside the frame header, right after the header
+\* (before the body), in the middle of the credential / body (for byte tokens: after the public part of the credential, the
+\* secret part still unsent).  The checker's PreReceive cannot return before the whole frame has arrived (variable sent).
+\* neighbour = "before": ANOTHER connection of the process (to another peer) authenticated just before with a valid byte
+\* token of the same length (whatever it left behind in the process -- pooled receive buffers -- is a VALID credential).
+SplitFirsts == Firsts \ {"garbage", "truncated", "silence"}
+Cfgs == [first : Firsts, pipe : {"none", "call", "push", "callpush"}, timing : {"atonce", "stepwise", "split"},
          hookpos : {"none", "before", "after"}, hookverdict : {"ok", "reject"}, path : {"serveconn", "listen"},
-         neighbour : {"none", "good"}]
+         neighbour : {"none", "good", "before"}, cut : {"none", "insize", "inhdr", "afterhdr", "midcred"}]
 CfgOK(c) == (c.hookpos = "none" => c.hookverdict = "ok") /\ (c.neighbour = "good" => c.first \in {"authgoodbytes", "authbadbytes"})
+            /\ (c.timing = "split" <=> c.cut # "none")
+            /\ (c.timing = "split" => c.first \in SplitFirsts /\ c.pipe \in {"none", "call"} /\ c.neighbour # "good")
+            /\ (c.neighbour = "before" => c.timing = "split" /\ c.first \in {"authgoodbytes", "authbadbytes"})
 
-VARIABLES cfg, pc, status, exchanged, authok, indexed, reader, handled, closed, replies
-vars == <<cfg, pc, status, exchanged, authok, indexed, reader, handled, closed, replies>>
+VARIABLES cfg, pc, status, exchanged, authok, indexed, reader, handled, closed, replies, sent
+vars == <<cfg, pc, status, exchanged, authok, indexed, reader, handled, closed, replies, sent>>
 
 Init == /\ cfg \in {c \in Cfgs : CfgOK(c)} /\ pc = "hook1" /\ status = "Preparing" /\ exchanged = 0 /\ authok = FALSE
         /\ indexed = FALSE /\ reader = FALSE /\ handled = 0 /\ closed = FALSE /\ replies = <<>>
+        /\ sent = (IF cfg.timing = "split" THEN "part" ELSE "all")     \* how much of its first frame the client has delivered
 
 Reject == pc' = "end" /\ status' = "ActiveClosed" /\ closed' = TRUE     \* sess.Close() on a Preparing session
 Hook1 ==  \* the other accept hook, when it is registered before the checker
   /\ pc = "hook1"
   /\ IF cfg.hookpos = "before" /\ cfg.hookverdict = "reject"
-       THEN Reject /\ UNCHANGED <<cfg, exchanged, authok, indexed, reader, handled, replies>>
-       ELSE pc' = "checker" /\ UNCHANGED <<cfg, status, exchanged, authok, indexed, reader, handled, closed, replies>>
+       THEN Reject /\ UNCHANGED <<cfg, exchanged, authok, indexed, reader, handled, replies, sent>>
+       ELSE pc' = "checker" /\ UNCHANGED <<cfg, status, exchanged, authok, indexed, reader, handled, closed, replies, sent>>
+SendRest == \* the client delivers the rest of its first frame while the checker waits in PreReceive
+  /\ pc = "checker" /\ sent = "part" /\ sent' = "all"
+  /\ UNCHANGED <<cfg, pc, status, exchanged, authok, indexed, reader, handled, closed, replies>>
 Checker == \* PreReceive of exactly one frame, verdict, AUTH_REPLY
   /\ pc = "checker" /\ exchanged' = exchanged + 1
+  /\ sent = "all"                                                     \* a frame is received whole or not at all
   /\ authok' = (cfg.first \in GoodFirsts)
   /\ replies' = IF cfg.first \in {"garbage", "truncated", "silence"} THEN replies      \* nothing decodable arrived: the reply may not even be writable
                 ELSE Append(replies, IF cfg.first \in GoodFirsts THEN "authreply-ok" ELSE "authreply-err")
   /\ IF cfg.first \in GoodFirsts
        THEN pc' = "hook2" /\ UNCHANGED <<status, closed>>
        ELSE Reject
-  /\ UNCHANGED <<cfg, indexed, reader, handled>>
+  /\ UNCHANGED <<cfg, indexed, reader, handled, sent>>
 Hook2 ==  \* the other accept hook, when it is registered after the checker
   /\ pc = "hook2"
   /\ IF cfg.hookpos = "after" /\ cfg.hookverdict = "reject"
-       THEN Reject /\ UNCHANGED <<cfg, exchanged, authok, indexed, reader, handled, replies>>
-       ELSE pc' = "serve" /\ UNCHANGED <<cfg, status, exchanged, authok, indexed, reader, handled, closed, replies>>
+       THEN Reject /\ UNCHANGED <<cfg, exchanged, authok, indexed, reader, handled, replies, sent>>
+       ELSE pc' = "serve" /\ UNCHANGED <<cfg, status, exchanged, authok, indexed, reader, handled, closed, replies, sent>>
 \* the three steps that put an accepted session into service, in the order of the code path taken:
 \* ServeConn: status Ok, index, reader goroutine (since fix 770e573; before it: Ok, reader, index);
 \* accept loop: index, status Ok, reader (in the accepting goroutine)
@@ -67,14 +82,14 @@ Serve ==
         /\ reader' = (reader \/ what = "reader")
         /\ indexed' = (indexed \/ what = "index")
         /\ pc' = (CASE k = 1 -> "serve2" [] k = 2 -> "serve3" [] OTHER -> "handle")
-  /\ UNCHANGED <<cfg, exchanged, authok, handled, closed, replies>>
+  /\ UNCHANGED <<cfg, exchanged, authok, handled, closed, replies, sent>>
 NPipe == CASE cfg.pipe = "none" -> 0 [] cfg.pipe = "callpush" -> 2 [] OTHER -> 1
 Handle == \* the reader handles the pipelined frames
   /\ reader /\ pc \in {"serve3", "handle"} /\ handled < NPipe /\ handled' = handled + 1
   /\ replies' = IF cfg.pipe = "call" \/ (cfg.pipe = "callpush" /\ handled = 0) THEN Append(replies, "reply") ELSE replies
-  /\ UNCHANGED <<cfg, pc, status, exchanged, authok, indexed, reader, closed>>
-Finish == pc = "handle" /\ handled = NPipe /\ pc' = "end" /\ UNCHANGED <<cfg, status, exchanged, authok, indexed, reader, handled, closed, replies>>
-Next == Hook1 \/ Checker \/ Hook2 \/ Serve \/ Handle \/ Finish
+  /\ UNCHANGED <<cfg, pc, status, exchanged, authok, indexed, reader, closed, sent>>
+Finish == pc = "handle" /\ handled = NPipe /\ pc' = "end" /\ UNCHANGED <<cfg, status, exchanged, authok, indexed, reader, handled, closed, replies, sent>>
+Next == Hook1 \/ SendRest \/ Checker \/ Hook2 \/ Serve \/ Handle \/ Finish
 Spec == Init /\ [][Next]_vars
 
 \* C16 on the model
@@ -82,11 +97,12 @@ NoHandlerWithoutAuth == handled > 0 => authok
 NoReaderWithoutAuth  == reader => authok
 NotListedWithoutAuth == indexed => authok
 ExchangeOnce         == exchanged <= 1
+NoVerdictBeforeFrame == (exchanged > 0 \/ handled > 0 \/ replies # <<>>) => sent = "all"
 RejectedIsClosed     == pc = "end" /\ ~(authok /\ status = "Ok") => closed /\ ~indexed
 
 Established(c) == c.first = "authgood" /\ ~(c.hookverdict = "reject")
 Emit == Export = "" \/ pc' # "end" \/
-  Serialize(ToJson([path |-> cfg.path, neighbour |-> cfg.neighbour, first |-> cfg.first, pipe |-> cfg.pipe, timing |-> cfg.timing, hookpos |-> cfg.hookpos, hookverdict |-> cfg.hookverdict,
+  Serialize(ToJson([path |-> cfg.path, neighbour |-> cfg.neighbour, cut |-> cfg.cut, first |-> cfg.first, pipe |-> cfg.pipe, timing |-> cfg.timing, hookpos |-> cfg.hookpos, hookverdict |-> cfg.hookverdict,
                     established |-> (status' = "Ok"), handled |-> handled', exchanged |-> exchanged', replies |-> replies']) \o "\n", Export,
             [format |-> "TXT", charset |-> "UTF-8", openOptions |-> <<"WRITE", "CREATE", "APPEND">>]).exitValue = 0
 =============================================================================
